@@ -52,6 +52,7 @@ pub fn run(tier: Tier) -> i32 {
             let case = Case { doc: doc.clone(), deviations: dev.clone() };
             let fails = c02::eval_case(&case, st, false, true);
             st.bump("spellings");
+            st.outcome(&(doc.canon(), dev));
             for f in fails {
                 st.fail(&case, f);
             }
@@ -72,6 +73,7 @@ pub fn run(tier: Tier) -> i32 {
             st.evals += 1;
             if let Ok(Err(e)) = r {
                 st.bump("errors_checked");
+                st.outcome(&(crate::props::c01::err_class(&format!("{:?}", e)), e.span().start, e.span().end));
                 if let Err(d) = error_span_ok(&t, &e) {
                     st.fail(&json!({"text": t, "fragment": frag}), Fail::new(format!("error-span-out-of-bounds|{}", crate::props::c01::err_class(&format!("{:?}", e))), d));
                 }
@@ -121,7 +123,7 @@ pub fn run(tier: Tier) -> i32 {
         "evaluations": stats.evals,
         "distinct_nontrivial": total,
         "samples": samples,
-        "rule": format!("span clause: every abstract document of C02 x every spelling with <= 2 deviations x {{parse_with_span_info, parse_fragment_with_span_info}}; every span the renderer recorded (element start / end, attribute name / value, text run, comment, PI target / content) must exist and equal the recorded byte range; error clause: every rejected string of length <= {} over an 18-symbol markup alphabet (parse and parse_fragment) and every single-character damage / truncation of the default spellings: ParseError::span() lies inside the source; distinct = number of texts", l),
+        "rule": format!("span clause: every abstract document of C02 x every spelling with <= 2 deviations x {{parse_with_span_info, parse_fragment_with_span_info}}; every span the renderer recorded (element start / end, attribute name / value, text run, comment, PI target / content) must exist and equal the recorded byte range; error clause: every rejected string of length <= {} over an 18-symbol markup alphabet (parse and parse_fragment) and every single-character damage / truncation of the default spellings: ParseError::span() lies inside the source; distinct = distinct (document, spelling) pairs plus distinct (error variant, reported span) triples", l),
     });
     ctx.finish(stats, cov, vec!["the renderer's offset table is the oracle".into()])
 }
